@@ -186,9 +186,22 @@ var C19SkipNames = []string{
 
 // C19Decide: the verdict if all readings agree, else C19Undefined and the index of the open clause in C19SkipNames.
 func C19Decide(t *C19Tree, weights []uint64, pcs []C19Pc, target int, headers []int) (int, int) {
+	// only the readings that can make a difference on this input are evaluated
+	hasBadSig, hasNonMember, hasEqv := false, false, false
+	for i, p := range pcs {
+		hasBadSig = hasBadSig || p.Sig != 0
+		hasNonMember = hasNonMember || p.Voter < 0
+		for _, q := range pcs[:i] {
+			hasEqv = hasEqv || (p.Voter >= 0 && q.Voter == p.Voter && q.Block != p.Block)
+		}
+	}
 	var v [8]int
 	same := true
 	for m := 0; m < 8; m++ {
+		if (m&1 != 0 && !hasBadSig) || (m&2 != 0 && !hasNonMember) || (m&4 != 0 && !hasEqv) {
+			v[m] = v[m&^((b2i(!hasBadSig))|(b2i(!hasNonMember)<<1)|(b2i(!hasEqv)<<2))]
+			continue
+		}
 		v[m] = C19Verdict(t, weights, pcs, target, headers, C19Reading{StrictSig: m&1 == 0, NonMembersConnect: m&2 == 0, EqvEverywhere: m&4 == 0})
 		if v[m] == C19Undefined {
 			return C19Undefined, 0
@@ -209,3 +222,9 @@ func C19Decide(t *C19Tree, weights []uint64, pcs []C19Pc, target int, headers []
 	return C19Undefined, 4
 }
 
+func b2i(b bool) int {
+	if b {
+		return 1
+	}
+	return 0
+}
